@@ -194,6 +194,9 @@ pub struct GenCfg {
     /// directed A-B-A: thread 0 runs rcu/cas, the others keep a handle to the initial value and
     /// alternate storing a fresh value and storing that same pointer back
     pub aba: bool,
+    /// directed hand-over across containers: thread 0 alternates loads of c0 and c1, the others
+    /// keep storing into one of them
+    pub alternate: bool,
 }
 
 /// Type-directed generation: registers are tracked abstractly per thread so that most operations
@@ -224,6 +227,23 @@ pub fn generate(rng: &mut Rng, cfg: &GenCfg) -> Program {
         let mut ops = vec![];
         let hbase = 1 + t * HPT;
         let gbase = t * GPT;
+        if cfg.alternate {
+            if t == 0 {
+                for k in 0..rng.range(3, 7) {
+                    ops.push(Op::LoadFull { c: k % 2, h: hbase });
+                    ops.push(Op::DropH { h: hbase });
+                }
+            } else {
+                let c = (t + 1) % 2;
+                for _ in 0..rng.range(2, 5) {
+                    ops.push(Op::New { h: hbase + 1, val: next_val * 100 });
+                    next_val += 1;
+                    ops.push(Op::Store { c, h: hbase + 1 });
+                }
+            }
+            threads.push(ops);
+            continue;
+        }
         if cfg.aba {
             if t == 0 {
                 for k in 0..rng.range(1, 4) {
